@@ -13,6 +13,7 @@ def Prog.maxCalls : Prog → Nat
   | .tryExcept b h _ => b.maxCalls + h.maxCalls
   | .raise _ => 0
   | .withNew _ _ _ b => 1 + b.maxCalls
+  | .nextGuard b => b.maxCalls
 
 theorem run_none_f (p : Prog) : ∀ w : World, (p.run none w).f = none := by
   induction p with
@@ -28,7 +29,11 @@ theorem run_none_f (p : Prog) : ∀ w : World, (p.run none w).f = none := by
     intro w; simp only [Prog.run]
     split
     · exact ihb w
+    · exact ihb w
     · show (h.run _ _).f = none; rw [ihb w]; exact ihh _
+  | nextGuard b ih =>
+    intro w; simp only [Prog.run]
+    split <;> exact ih w
   | raise e => intro w; rfl
   | withNew c r t b ih => intro w; simp only [Prog.run]; exact ih _
 
@@ -74,9 +79,23 @@ theorem run_budget (p : Prog) : ∀ (k : Nat) (w : World), p.maxCalls ≤ k →
       refine ⟨k1, ?_, by simp only [Prog.maxCalls]; omega⟩
       simp only [Prog.run, h1, he]
     | some e =>
-      obtain ⟨k2, h2, hk2⟩ := ihh k1 (b.run none w).w (by omega)
-      refine ⟨k2, ?_, by simp only [Prog.maxCalls]; omega⟩
-      simp only [Prog.run, h1, he, run_none_f b w, h2]
+      by_cases hki : e = .keyboardInterrupt
+      · subst hki
+        refine ⟨k1, ?_, by simp only [Prog.maxCalls]; omega⟩
+        simp only [Prog.run, h1, he]
+      · obtain ⟨k2, h2, hk2⟩ := ihh k1 (b.run none w).w (by omega)
+        refine ⟨k2, ?_, by simp only [Prog.maxCalls]; omega⟩
+        cases e <;> first
+          | exact absurd rfl hki
+          | simp only [Prog.run, h1, he, run_none_f b w, h2]
+  | nextGuard b ih =>
+    intro k w hk
+    simp only [Prog.maxCalls] at hk
+    obtain ⟨k1, h1, hk1⟩ := ih k w hk
+    refine ⟨k1, ?_, by simp only [Prog.maxCalls]; omega⟩
+    cases he : (b.run none w).exc with
+    | none => simp only [Prog.run, h1, he]
+    | some e => cases e <;> simp only [Prog.run, h1, he]
   | withNew c r t b ih =>
     intro k w hk
     simp only [Prog.maxCalls] at hk
